@@ -11,7 +11,7 @@ PARTIAL = ""
 
 
 def oracle(ctx):
-    n = (300 if ctx["tier"] == "quick" else 3000) * ctx["boost"]
+    n = (800 if ctx["tier"] == "quick" else 3000) * ctx["boost"]
     return cm.run_cases(fw.c02_case, ctx["seed"], ID, n, {"size": 40 if ctx["tier"] == "quick" else 3 * 40})
 
 
